@@ -35,22 +35,31 @@ inductive Subtype (s : SchemaD) : Ty → Ty → Prop
   | possible {o a : String} : isObjectTy s (.named o) = true → isAbstractTy s (.named a) = true →
       isPossibleType s (.named a) (.named o) = true → Subtype s (.named o) (.named a)
 
-/-! ### resolver signatures (what the executor will call: `resolver(root, ctx, info, **args)`) -/
+/-! ### resolver signatures
+
+  The executor calls `resolver(root, ctx, info, **arguments)`; `arguments` always holds the required arguments
+  and those with a default value, and may hold the others. The three values go to the first three positional
+  parameters (`leadingNames`) or into `*args`; an argument reaches, by keyword, a positional-or-keyword parameter
+  after those three or a keyword-only parameter (`keywordParam`), else `**kwargs`. -/
 
 /-- the resolver can be called with 3 positional values and the coerced arguments as keywords -/
 def ResolverCompatible (args : List ArgD) (r : ResolverD) : Prop :=
+  -- the three positional values are accepted
+  (r.params.any (·.kind == .varPos) = true ∨ 3 ≤ (positionalParams r.params).length) ∧
   (∀ a ∈ args,
-    match findParam r.params a.pythonName with
-    | none => r.params.any (·.kind == .varKw) = true            -- swallowed by **kwargs
-    | some p => p.kind ≠ .posOnly ∧
-        -- an argument that may be absent needs a parameter default
-        (p.hasDefault = true ∨ a.hasDefault = true ∨ argRequired a = true)) ∧
-  (r.params.any (·.kind == .varPos) = true ∨
-    3 ≤ ((remainingParams r.params args).filter (fun p => isPositionalKind p.kind)).length) ∧
-  (∀ p ∈ (remainingParams r.params args).drop 3, p.hasDefault = true)
+    match keywordParam r.params a.pythonName with
+    | some p => -- an argument that may be absent needs a parameter default
+        p.hasDefault = true ∨ a.hasDefault = true ∨ argRequired a = true
+    | none => -- swallowed by **kwargs, and not the name of a parameter already filled positionally
+        r.params.any (·.kind == .varKw) = true ∧
+        ∀ cl, findParam r.params a.pythonName = some cl →
+          ¬ ((leadingNames r.params).contains cl.name = true ∧ cl.kind = .posOrKw)) ∧
+  -- every parameter that the call does not fill has a default
+  (∀ p ∈ unfedParams r.params args, p.hasDefault = true)
 
 def ResolverOK (s : SchemaD) (rv : Bool) (t : TypeD) (f : FieldD) : Prop :=
-  ∀ r, pickResolver s t f = some r → rv = true → r.inspectable = true → ResolverCompatible f.args r
+  ∀ r, (pickResolver s t f = some r ∨ f.subscriptionResolver = some r) → rv = true → r.inspectable = true →
+    ResolverCompatible f.args r
 
 /-! ### per-rule predicates -/
 
@@ -70,7 +79,7 @@ def Implements (s : SchemaD) (t it : TypeD) : Prop :=
   ∀ f ∈ it.fields, ∃ objField, fieldMap t f.name = some objField ∧
     Subtype s objField.type f.type ∧
     (∀ a ∈ f.args, ∃ oa, argMap objField a.name = some oa ∧ a.type = oa.type) ∧
-    (∀ a ∈ objField.args, argMap f a.name = none → a.type.isNonNull = false)
+    (∀ a ∈ objField.args, argMap f a.name = none → argRequired a = false)
 
 def InterfacesOK (s : SchemaD) (t : TypeD) : Prop :=
   (∀ i ∈ t.interfaces, ∃ it, s.findType i = some it ∧ it.kind = .interface ∧ Implements s t it) ∧
@@ -112,11 +121,13 @@ def ValidSchema (s : SchemaD) (rv : Bool := true) : Prop :=
 /-! ### violation instances — one constructor per rule (= per `add_error` call site)
 
   A *violation instance* is a rule together with the position that breaks it; the error it must
-  produce carries that position as its subject. Element-level rules speak about an element `x` of a
-  member list together with what precedes it (`At xs pre x`): uniqueness rules fire on every later
-  occurrence of a name, the other rules of an element on its first occurrence (a repeated member is
-  reported as a duplicate and not examined further), and a type whose own name is rejected is not
-  examined further. -/
+  produce carries that position as its subject. This is the STATEMENT's notion ("reporting all violations
+  together"): every element is examined for every rule — a repeated member is a uniqueness violation AND is
+  examined like any other member, a type with an ill-formed name is examined like any other type, the
+  argument rules of an interface field hold whatever its type is. (`At xs pre x`: `x` occurs with `pre` before
+  it; uniqueness rules fire on every later occurrence of a name.) The only dependencies left are structural:
+  the implementation of an interface is examined once per interface, for entries that ARE interfaces, and the
+  duplicate rule of union members speaks about object members. -/
 
 /-- `x` occurs in `xs` with exactly `pre` before it -/
 def At {α} (xs pre : List α) (x : α) : Prop := ∃ post, xs = pre ++ x :: post
@@ -126,31 +137,38 @@ inductive ArgViol (s : SchemaD) (dupRule notInputRule : Rule) (owner : String) (
       ArgViol s dupRule notInputRule owner args ⟨.invalidName, [a.name]⟩
   | dup {pre a} : At args pre a → a.name ∈ pre.map (·.name) →
       ArgViol s dupRule notInputRule owner args ⟨dupRule, [a.name, owner]⟩
-  | notInput {pre a} : At args pre a → a.name ∉ pre.map (·.name) → isInputType s a.type = false →
+  | notInput {pre a} : At args pre a → isInputType s a.type = false →
       ArgViol s dupRule notInputRule owner args ⟨notInputRule, [a.name, owner, a.type.render]⟩
 
 inductive ResolverViol (path : String) (args : List ArgD) (r : ResolverD) : Err → Prop
-  | missingParam {a} : a ∈ args → findParam r.params a.pythonName = none →
-      r.params.any (·.kind == .varKw) = false → ResolverViol path args r ⟨.resMissingParam, [a.name, path]⟩
-  | posOnly {a p} : a ∈ args → findParam r.params a.pythonName = some p → p.kind = .posOnly →
-      ResolverViol path args r ⟨.resPosOnly, [a.name, path]⟩
-  | needsDefault {a p} : a ∈ args → findParam r.params a.pythonName = some p → p.kind ≠ .posOnly →
+  | positional : r.params.any (·.kind == .varPos) = false → (positionalParams r.params).length < 3 →
+      ResolverViol path args r ⟨.resPositional, [path]⟩
+  | needsDefault {a p} : a ∈ args → keywordParam r.params a.pythonName = some p →
       p.hasDefault = false → a.hasDefault = false → argRequired a = false →
       ResolverViol path args r ⟨.resNeedsDefault, [a.name, path]⟩
-  | positional : r.params.any (·.kind == .varPos) = false →
-      ((remainingParams r.params args).filter (fun p => isPositionalKind p.kind)).length < 3 →
-      ResolverViol path args r ⟨.resPositional, [path]⟩
-  | extraRequired {p} : p ∈ (remainingParams r.params args).drop 3 → p.hasDefault = false →
+  | collides {a cl} : a ∈ args → keywordParam r.params a.pythonName = none → findParam r.params a.pythonName = some cl →
+      (leadingNames r.params).contains cl.name = true → cl.kind = .posOrKw →
+      ResolverViol path args r ⟨.resCollides, [a.name, path]⟩
+  | posOnly {a cl} : a ∈ args → keywordParam r.params a.pythonName = none → findParam r.params a.pythonName = some cl →
+      ¬ ((leadingNames r.params).contains cl.name = true ∧ cl.kind = .posOrKw) → cl.kind = .posOnly →
+      r.params.any (·.kind == .varKw) = false → ResolverViol path args r ⟨.resPosOnly, [a.name, path]⟩
+  | missingParam {a} : a ∈ args → keywordParam r.params a.pythonName = none →
+      (∀ cl, findParam r.params a.pythonName = some cl →
+        ¬ ((leadingNames r.params).contains cl.name = true ∧ cl.kind = .posOrKw) ∧ cl.kind ≠ .posOnly) →
+      r.params.any (·.kind == .varKw) = false → ResolverViol path args r ⟨.resMissingParam, [a.name, path]⟩
+  | extraRequired {p} : p ∈ unfedParams r.params args → p.hasDefault = false →
       ResolverViol path args r ⟨.resExtraRequired, [p.name, path]⟩
 
 inductive FieldViol (s : SchemaD) (rv : Bool) (t : TypeD) : Err → Prop
   | name {pre f} : At t.fields pre f → isValidName f.name = false → FieldViol s rv t ⟨.invalidName, [f.name]⟩
   | dup {pre f} : At t.fields pre f → f.name ∈ pre.map (·.name) → FieldViol s rv t ⟨.dupField, [f.name, t.name]⟩
-  | notOutput {pre f} : At t.fields pre f → f.name ∉ pre.map (·.name) → isOutputType s f.type = false →
+  | notOutput {pre f} : At t.fields pre f → isOutputType s f.type = false →
       FieldViol s rv t ⟨.fieldNotOutput, [f.name, t.name, f.type.render]⟩
-  | arg {pre f e} : At t.fields pre f → f.name ∉ pre.map (·.name) →
+  | arg {pre f e} : At t.fields pre f →
       ArgViol s .dupArg .argNotInput (t.name ++ "." ++ f.name) f.args e → FieldViol s rv t e
-  | resolver {pre f r e} : At t.fields pre f → f.name ∉ pre.map (·.name) → pickResolver s t f = some r →
+  | resolver {pre f r e} : At t.fields pre f → pickResolver s t f = some r →
+      rv = true → r.inspectable = true → ResolverViol (t.name ++ "." ++ f.name) f.args r e → FieldViol s rv t e
+  | subscription {pre f r e} : At t.fields pre f → f.subscriptionResolver = some r →
       rv = true → r.inspectable = true → ResolverViol (t.name ++ "." ++ f.name) f.args r e → FieldViol s rv t e
 
 inductive ImplViol (s : SchemaD) (t it : TypeD) : Err → Prop
@@ -158,14 +176,14 @@ inductive ImplViol (s : SchemaD) (t it : TypeD) : Err → Prop
       ImplViol s t it ⟨.ifaceFieldMissing, [it.name ++ "." ++ f.name, t.name]⟩
   | fieldType {f o} : f ∈ it.fields → fieldMap t f.name = some o → ¬ Subtype s o.type f.type →
       ImplViol s t it ⟨.ifaceFieldType, [it.name ++ "." ++ f.name, f.type.render, t.name ++ "." ++ f.name, o.type.render]⟩
-  | argMissing {f o a} : f ∈ it.fields → fieldMap t f.name = some o → Subtype s o.type f.type →
+  | argMissing {f o a} : f ∈ it.fields → fieldMap t f.name = some o →
       a ∈ f.args → argMap o a.name = none →
       ImplViol s t it ⟨.ifaceArgMissing, [it.name ++ "." ++ f.name, a.name, t.name ++ "." ++ f.name]⟩
-  | argType {f o a oa} : f ∈ it.fields → fieldMap t f.name = some o → Subtype s o.type f.type →
+  | argType {f o a oa} : f ∈ it.fields → fieldMap t f.name = some o →
       a ∈ f.args → argMap o a.name = some oa → a.type ≠ oa.type →
       ImplViol s t it ⟨.ifaceArgType, [it.name ++ "." ++ f.name, a.name, a.type.render, t.name ++ "." ++ f.name, a.name, oa.type.render]⟩
-  | extraRequired {f o a} : f ∈ it.fields → fieldMap t f.name = some o → Subtype s o.type f.type →
-      a ∈ o.args → argMap f a.name = none → a.type.isNonNull = true →
+  | extraRequired {f o a} : f ∈ it.fields → fieldMap t f.name = some o →
+      a ∈ o.args → argMap f a.name = none → argRequired a = true →
       ImplViol s t it ⟨.extraRequiredArg, [t.name ++ "." ++ f.name, a.name, a.type.render, it.name ++ "." ++ f.name]⟩
 
 def isIface (s : SchemaD) (i : String) : Bool :=
@@ -191,21 +209,18 @@ inductive InputViol (s : SchemaD) (t : TypeD) : Err → Prop
   | empty : t.inputFields = [] → InputViol s t ⟨.noFields, [t.name]⟩
   | name {pre f} : At t.inputFields pre f → isValidName f.name = false → InputViol s t ⟨.invalidName, [f.name]⟩
   | dup {pre f} : At t.inputFields pre f → f.name ∈ pre.map (·.name) → InputViol s t ⟨.dupField, [f.name, t.name]⟩
-  | notInput {pre f} : At t.inputFields pre f → f.name ∉ pre.map (·.name) → isInputType s f.type = false →
+  | notInput {pre f} : At t.inputFields pre f → isInputType s f.type = false →
       InputViol s t ⟨.inputFieldNotInput, [f.name, t.name, f.type.render]⟩
-
-/-- the type's own name passed (or the type is specified / introspection) -/
-def Examined (t : TypeD) : Prop := (t.builtin || isValidName t.name) = true
 
 inductive TypeViol (s : SchemaD) (rv : Bool) (t : TypeD) : Err → Prop
   | typeName : (t.builtin || isValidName t.name) = false → TypeViol s rv t ⟨.invalidTypeName, [t.name]⟩
-  | noFields : Examined t → (t.kind = .object ∨ t.kind = .interface) → t.fields = [] →
+  | noFields : (t.kind = .object ∨ t.kind = .interface) → t.fields = [] →
       TypeViol s rv t ⟨.noFields, [t.name]⟩
-  | field {e} : Examined t → (t.kind = .object ∨ t.kind = .interface) → FieldViol s rv t e → TypeViol s rv t e
-  | iface {e} : Examined t → t.kind = .object → IfaceViol s t e → TypeViol s rv t e
-  | union {e} : Examined t → t.kind = .union → UnionViol s t e → TypeViol s rv t e
-  | enum {e} : Examined t → t.kind = .enum → EnumViol t e → TypeViol s rv t e
-  | input {e} : Examined t → t.kind = .input → InputViol s t e → TypeViol s rv t e
+  | field {e} : (t.kind = .object ∨ t.kind = .interface) → FieldViol s rv t e → TypeViol s rv t e
+  | iface {e} : t.kind = .object → IfaceViol s t e → TypeViol s rv t e
+  | union {e} : t.kind = .union → UnionViol s t e → TypeViol s rv t e
+  | enum {e} : t.kind = .enum → EnumViol t e → TypeViol s rv t e
+  | input {e} : t.kind = .input → InputViol s t e → TypeViol s rv t e
 
 inductive RootViol (s : SchemaD) : Err → Prop
   | noQuery : s.query = none → RootViol s ⟨.noQuery, []⟩
